@@ -121,7 +121,7 @@ replay = P.replay
 
 
 # ------------------------------------------------------------------ the same numbers stored in another dtype
-from oracles import dtype_independence, merge_oracle
+from oracles import dtype_independence, merge_oracle, history_independence
 from common import np, dnp
 DTYPE_CASES = [("apodize-" + k, (lambda k, kw: lambda d, dim: dnp.apodize(d, dim, kind=k, **kw))(k, kw), "t2")
     for k, kw in (("exponential", {"lw": 0.05}), ("gaussian", {"lw": 0.05}), ("traf", {"lw": 0.05}), ("hann", {}), ("hamming", {}), ("sin2", {}))]
@@ -133,7 +133,9 @@ def run(tier, seed, escalate=False):
     the processed axis give the result of the float64 object (a dtype the function refuses is not judged)"""
     res = _run_before_dtype(tier, seed, escalate)
     f, n = dtype_independence("C15", DTYPE_CASES, seed, dim_positions=(1,) if tier == "quick" and not escalate else (0, 1, 2))
-    return merge_oracle(res, f, n, "storage_dtype_variants")
+    res = merge_oracle(res, f, n, "storage_dtype_variants")
+    f, n = history_independence("C15", DTYPE_CASES, seed)
+    return merge_oracle(res, f, n, "call_history_cases")
 
 
 # ------------------------------------------------------------------ the same axis in another unit
